@@ -113,6 +113,7 @@ for (const s of job.structs) {
             try {
                 st.calls.length = 0; st.allocs.length = 0;
                 st.hooks[fname] = (args) => {
+                    if (w.direct) return flag;
                     const p = args[0];
                     // for the first struct of a job the callee also grows the wasm memory (as an allocation inside Rust may):
                     // every view taken before the call is detached, the bindings have to look at wasm.memory.buffer afresh
@@ -130,7 +131,7 @@ for (const s of job.structs) {
                 rec.called = st.calls.some((k) => k.name === fname);
                 const arm = flag ? w.ok_kind : w.err_kind;
                 const dec = (x) => arm === "struct" ? (x === null || x === undefined ? null : s.fields.map((f) => canon(f.ft, x[f.name])))
-                    : arm === "en" ? (x === null || x === undefined ? null : { en: x.ffiValue }) : arm === "unit" ? (x === undefined || x === null ? "unit" : { other: String(x) }) : canonArg(x);
+                    : arm === "en" ? (x === null || x === undefined ? null : { en: x.ffiValue }) : arm === "unit" ? (x === undefined || x === null ? "unit" : { other: String(x) }) : arm === "zst" ? (x === undefined || x === null ? null : "zst") : canonArg(x);
                 if (thrown) { rec.thrown = true; rec.cause = thrown.cause === undefined ? { nocause: String(thrown).slice(0, 120) } : dec(thrown.cause); }
                 else { rec.thrown = false; rec.ret = (ret === null) ? null : dec(ret); }
             } catch (e) { rec.error = String(e).slice(0, 200); }
